@@ -65,7 +65,9 @@ RULE = ("P: all dictionaries with 1..2 (thorough 3) entries over the value alpha
         "save+load of the same object round-trips and an earlier valid file still loads equal; alternative entry points (to_dict/from_dict, load_from_file on the '.pickle'-less "
         "name, save_to/load_from_pickled_file, get_filename_with_replaced_params); "
         "file-name determinism and pairwise injectivity over the scalar alphabet (incl. tiny floats, large floats a "
-        "fine step / one ulp apart, ints beyond 2^53, narrow floats). Non-trivial = the object holds "
+        "fine step / one ulp apart, ints beyond 2^53, narrow floats) and along the TYPE axis (confusable values as "
+        "Python float / np.float64 / np.float32 / np.float16 where exact, Python vs numpy ints, and as the np.float64 "
+        "children of an unpacked float array or list, whose files must not overwrite each other). Non-trivial = the object holds "
         "a value JSON has no native form for (numpy scalar/array, set), an unpack mark, or a result with >= 1 "
         "update; distinct = distinct (dictionary, unpack subset, child index) / (type, accumulate, history)")
 
@@ -1370,6 +1372,121 @@ def distinct_scalars(v, w):
     return not num_equal(v, w)
 
 
+def confusable_float_groups():
+    """groups of DISTINCT doubles that a rounding / tolerance / narrowing step would merge"""
+    up, dn = float(np.nextafter(0.5, 1.0)), float(np.nextafter(0.5, 0.0))
+    return {
+        "tiny": [1e-13, 2e-13, 4e-13, 1e-300, 2e-300],
+        "near_half": [dn, 0.5 - 1e-14, 0.5, 0.5 + 1e-14, up],
+        "sum_noise": [0.3, 0.1 + 0.2, 0.7, 0.1 * 7],
+        "large_close": [2.4e9, 2.4e9 + 5e3, 1e15, 1e15 + 1.0, 1e22, float(np.nextafter(1e22, 2e22))],
+        "ordinary": [0.0, 0.25, 1e-3, 12.5, 1e6],
+    }
+
+
+def typed_presentations(v):
+    """the same number as Python float, numpy float64 and - where it is exactly
+    representable - float32 / float16 (label, scalar)"""
+    out = [("float", v), ("np.float64", np.float64(v))]
+    with np.errstate(all="ignore"):
+        for name, tp in (("np.float32", np.float32), ("np.float16", np.float16)):
+            w = tp(v)
+            if np.isfinite(w) and float(w) == v:
+                out.append((name, w))
+    return out
+
+
+def part_names_types(c, T):
+    """file-name injectivity along the TYPE axis: every pair of distinct values
+    of a confusable group, each presented as Python float / np.float64 /
+    np.float32 / np.float16 (where exact), as Python int / numpy ints, and as
+    the np.float64 children obtained by unpacking a float ARRAY parameter;
+    distinct values -> distinct names, and the files of the children of one
+    array must not overwrite each other."""
+    from pyphysim.simulations.parameters import SimulationParameters
+    groups = confusable_float_groups()
+    for gname, vals in groups.items():
+        items = [(lab, x, v) for v in vals for lab, x in typed_presentations(v)]
+        names = []
+        for lab, x, v in items:
+            case = {"part": "N", "group": "typed:" + gname, "values": [x], "as": lab}
+            with guard(c, ("file_name", "one_placeholder"), case):
+                a, b = file_name([x])
+                c.count("eval_file_names")
+                if a != b:
+                    c.fail(("file_name", "not_deterministic"), case, observed=(a, b))
+                names.append(a)
+        if len(names) != len(items):
+            continue
+        for i in range(len(items)):
+            for j in range(i + 1, len(items)):
+                c.count("eval_file_name_pairs")
+                if items[i][2] != items[j][2]:
+                    c.nontriv(("N", "typed", gname, i, j))
+                    c.outcome("typed_name_pairs", (items[i][0], items[j][0]))
+                    if names[i] == names[j]:
+                        c.fail(("file_name", "distinct_scalars_same_name", "numbers"),
+                               {"part": "N", "group": "typed:" + gname, "values": [items[i][1]],
+                                "other": [items[j][1]], "as": [items[i][0], items[j][0]]},
+                               observed=names[i], expected="different names")
+    # integers: Python int vs numpy ints, incl. beyond double precision
+    ints = [0, 1, 2 ** 53, 2 ** 53 + 1, 2 ** 62, 2 ** 62 + 1]
+    items = [(lab, tp(v), v) for v in ints for lab, tp in (("int", int), ("np.int64", np.int64), ("np.uint64", np.uint64))]
+    names = []
+    for lab, x, v in items:
+        with guard(c, ("file_name", "one_placeholder"), {"part": "N", "group": "typed:int", "values": [x]}):
+            names.append(file_name([x])[0])
+            c.count("eval_file_names")
+    if len(names) == len(items):
+        for i in range(len(items)):
+            for j in range(i + 1, len(items)):
+                c.count("eval_file_name_pairs")
+                if items[i][2] != items[j][2] and names[i] == names[j]:
+                    c.fail(("file_name", "distinct_scalars_same_name", "numbers"),
+                           {"part": "N", "group": "typed:int", "values": [items[i][1]], "other": [items[j][1]]},
+                           observed=names[i], expected="different names")
+    # children of an unpacked float ARRAY (np.float64 scalars): names and files
+    arrays = dict(groups, arange=[float(v) for v in np.arange(0, 1, 0.1)])
+    for gname, vals in arrays.items():
+        for container in ("array", "list"):
+            case = {"part": "N", "group": "children:" + gname, "container": container, "values": vals}
+            with guard(c, ("file_name", "children_of_unpacked_parameter"), case):
+                value = np.array(vals) if container == "array" else list(vals)
+                p = SimulationParameters.create({"a": value, "b": 4})
+                p.set_unpack_parameter("a")
+                children = p.get_unpacked_params_list()
+                d, _ = T.path("x")
+                try:
+                    saved = {}
+                    for k, child in enumerate(children):
+                        s = wrap_results(child, 1)
+                        s.runned_reps = [k]
+                        name = s.save_to_file(os.path.join(d, "res_{a}_{b}.json"))
+                        c.count("eval_file_names")
+                        saved.setdefault(name, []).append(k)
+                    c.count("eval_children_file_sets")
+                    c.nontriv(("N", "children", gname, container))
+                    clash = {n: ks for n, ks in saved.items() if len(ks) > 1}
+                    if clash:
+                        n0 = sorted(clash)[0]
+                        c.fail(("file_name", "distinct_scalars_same_name", "children_of_unpacked_parameter"),
+                               dict(case, clash=[vals[k] for k in clash[n0]]), observed=os.path.basename(n0),
+                               expected="one file per child")
+                    files = [f for f in os.listdir(d) if not f.endswith(".tmp")]
+                    if len(files) != len(children):
+                        c.fail(("file_name", "children_files_overwrite_each_other"), case,
+                               observed=sorted(files), expected="%d files" % len(children))
+                    for name, ks in saved.items():
+                        back = type(s).load_from_file(name)
+                        want = wrap_results(children[ks[-1]], 1)
+                        want.runned_reps = [ks[-1]]
+                        if len(ks) == 1 and (diff(want, back) is not None or not (back == want)):
+                            c.fail(("file_name", "child_file_holds_another_object"), dict(case, child=ks[0]),
+                                   observed=diff(want, back))
+                finally:
+                    shutil.rmtree(d, ignore_errors=True)
+
+
 def part_names(c):
     nums, strs = scalar_names_alphabet()
     for group, vals in (("numbers", nums), ("strings", strs)):
@@ -1470,6 +1587,7 @@ def main(chk: Check):
     try:
         with guard(chk, ("file_name",), {"part": "N"}):
             part_names(chk)
+            part_names_types(chk, Targets(chk, tempfile.mkdtemp(prefix="names-", dir=top)))
         with guard(chk, ("error_paths",), {"part": "E"}):
             part_errors(chk, Targets(chk, tempfile.mkdtemp(prefix="errors-", dir=top)))
 
@@ -1507,6 +1625,7 @@ def main(chk: Check):
     chk.require_outcomes("bookkeeping_shapes", len(BK_PARAMS) * len(BK_RESULTS))
     chk.require_outcomes("invalid_call", 10)
     chk.require_outcomes("history_final_states", 20)
+    chk.require_outcomes("typed_name_pairs", 6)
 
 
 def replay(case, chk: Check):
@@ -1518,6 +1637,7 @@ def replay(case, chk: Check):
             probe_choice(chk)
         elif part == "N":
             part_names(chk)
+            part_names_types(chk, T)
         elif part == "E":
             part_errors(chk, T)
         elif part == "H":
